@@ -1,6 +1,6 @@
 (* C10 — Channeled subscribers: same stream, own thread, own backpressure policy.
    Statements only; proofs in ChannelProofs.v, WorldSubs.v, WorldFlush.v. *)
-From RS Require Import Base Channel ChannelProofs Pipeline Script World Hist WorldProofs WorldInv WorldQueue WorldStop WorldSubs WorldFlush WorldSids WorldForward.
+From RS Require Import Base Channel ChannelProofs Pipeline Script World Hist WorldProofs WorldInv WorldQueue WorldStop WorldSubs WorldFlush WorldMetrics WorldEffects WorldSids WorldForward WorldFwdFinal WorldFwdSince.
 
 Section C10.
 Context {State : Type}.
@@ -72,6 +72,16 @@ Theorem C10_same_stream : forall reducers mws progs w sid c pc, distinct_regs pr
   get_thread (w_threads w) reducer_tid = Some (TReducer pc) ->
   rev (fowed sid (w_hist w)) = rev (subrecvs sid (w_hist w)) ++ qacts c ++ pendingf sid pc.
 Proof. intros. eapply consumed_is_owed; eauto. Qed.
+
+(* "nothing is delivered afterwards": once the reducer has left its loop (shutdown release in
+   progress or over) the stream forwarded to the subscriber's channel is final along every
+   continuation (WorldFwdFinal.v, WorldFwdSince.v; distinct identifiers) - what the subscriber
+   thread may still deliver was forwarded before, and the release waits until it has (C10_flush,
+   C10_joins_wait) *)
+Theorem C10_stream_final_after_release : forall reducers mws progs w sched w' sid,
+  length progs <= 100 -> distinct_regs progs -> reachable cfg reducers mws progs w -> releasing w ->
+  run cfg w sched = Some w' -> subsends sid (w_hist w') = subsends sid (w_hist w).
+Proof. intros. eapply stream_is_final; eauto. Qed.
 End C10.
 
 Print Assumptions C10_stream.
@@ -81,3 +91,4 @@ Print Assumptions C10_flush.
 Print Assumptions C10_joins_wait.
 Print Assumptions C10_silent_after.
 Print Assumptions C10_same_stream.
+Print Assumptions C10_stream_final_after_release.
